@@ -301,6 +301,14 @@ func genMsgSpec(r *vu.Rng) (proto int, psh []byte, typ, code int, b body) {
 	case "raw":
 		b.data = r.Bytes(r.Intn(40))
 	}
+	if proto == protoV4 && r.Chance(1, 8) {
+		// callers that share one code path hand the IPv6 pseudo header (or anything) to ICMPv4 messages
+		if r.Bool() {
+			psh = r.Bytes(40)
+		} else {
+			psh = r.Bytes(r.Intn(65))
+		}
+	}
 	if proto == protoV6 && r.Chance(2, 3) {
 		psh = r.Bytes(40)
 		psh[32], psh[33], psh[34], psh[35] = 0, 0, 0, 0
